@@ -37,6 +37,11 @@ def gen_case(r, hashseed, tier):
   ground = sorted(set(r.sample(pool, min(len(pool), r.choice([1, 1, 2, 3])))))
   if r.random() < 0.3:
     ground = sorted(set(ground) | {r.choice(idb)})
+  ground_table = {}
+  for g in ground:
+    if r.random() < 0.3:
+      # a table the program points to by name (still in the attached database)
+      ground_table[g] = '%s.%s' % (HOME, r.choice(['t_%s', 'out_%s', '%s_tbl', 'X%s']) % g.lower())
   versions = [{p['name']: p['rows'] for p in program['preds'] if p['kind'] == 'edb'}]
   for _ in range(r.choice([0, 1, 2])):
     v = {}
@@ -53,7 +58,11 @@ def gen_case(r, hashseed, tier):
     elif k == 'tamper':
       ops.append(['tamper', r.choice(ground), r.choice(['garbage', 'drop', 'garbage'])])
     elif k == 'many':
-      ops.append(['many', r.sample(idb, min(len(idb), r.choice([2, 2, 3]))), []])
+      if r.random() < 0.3:
+        # logica.py <file> run_to_csv P,Q : one fresh program and one script per predicate
+        ops.append(['climany', r.sample(idb, min(len(idb), r.choice([2, 2, 3]))), []])
+      else:
+        ops.append(['many', r.sample(idb, min(len(idb), r.choice([2, 2, 3]))), []])
     elif k == 'rerun':
       ops.append(['rerun'])
     elif k == 'faulted':
@@ -64,7 +73,8 @@ def gen_case(r, hashseed, tier):
         ops.append(['run', r.choice(idb), r.choice(['script', 'concertina']), [f]])
     else:
       ops.append(['run', r.choice(idb), r.choice(['script', 'concertina', 'concertina', 'cli', 'cli_terminal']), []])
-  return {'hashseed': hashseed, 'program': program, 'ground': ground, 'versions': versions, 'ops': ops}
+  return {'hashseed': hashseed, 'program': program, 'ground': ground, 'ground_table': ground_table,
+          'versions': versions, 'ops': ops}
 
 
 def gen_fault(r):
@@ -87,6 +97,7 @@ def program_at(case, version, dbpath):
     if q['kind'] == 'edb':
       q['rows'] = case['versions'][version][q['name']]
   p['ground'] = list(case['ground'])
+  p['ground_table'] = dict(case.get('ground_table') or {})
   p['attach'] = dbpath
   return p
 
@@ -148,6 +159,12 @@ def run_history(case, scratch):
   by = {p['name']: p for p in case['program']['preds']}
   dep = gen.dependants(case['program'])
   ground = list(case['ground'])
+  gt = case.get('ground_table') or {}
+
+  def tab(g):
+    """Name of the table of grounded predicate g inside the attached file."""
+    return gt[g].split('.', 1)[1] if g in gt else g
+  pred_of_table = {tab(g): g for g in ground}
   version = 0
   refs = {}
 
@@ -176,10 +193,10 @@ def run_history(case, scratch):
         c = sqlite3.connect(dbpath)
         try:
           c.execute('PRAGMA busy_timeout=0')
-          c.execute('DROP TABLE IF EXISTS "%s"' % op[1])
+          c.execute('DROP TABLE IF EXISTS "%s"' % tab(op[1]))
           if op[2] == 'garbage':
-            c.execute('CREATE TABLE "%s" (col0 INTEGER, junk TEXT)' % op[1])
-            c.execute('INSERT INTO "%s" VALUES (424242, \'stale\')' % op[1])
+            c.execute('CREATE TABLE "%s" (col0 INTEGER, junk TEXT)' % tab(op[1]))
+            c.execute('INSERT INTO "%s" VALUES (424242, \'stale\')' % tab(op[1]))
           c.commit()
         except sqlite3.OperationalError as e:
           # the other client cannot write either while somebody holds the lock
@@ -203,6 +220,8 @@ def run_history(case, scratch):
         op2 = op
       if op2[0] == 'run':
         preds, path, faults = [op2[1]], op2[2], op2[3]
+      elif op2[0] == 'climany':
+        preds, path, faults = list(op2[1]), 'climany', op2[2]
       else:
         preds, path, faults = list(op2[1]), 'many', op2[2]
       if kind == 'rerun':
@@ -215,7 +234,7 @@ def run_history(case, scratch):
         info['probes']['file_locked_before_a_run'] += 1
         before = {}
       info['states'].add(core.digest64(sorted((k, core.digest(v)[:12]) for k, v in before.items())))
-      stale_before = {g for g in ground if g in before and table_key(before[g]) != table_key(expect_table(by[g], R))}
+      stale_before = {g for g in ground if tab(g) in before and table_key(before[tab(g)]) != table_key(expect_table(by[g], R))}
       faults_ = [dict(f, file=dbpath) if f['kind'] == 'busy' else f for f in faults]
       for f in faults_:
         info['configured'][f['kind']] += 1
@@ -225,7 +244,15 @@ def run_history(case, scratch):
       exc = None
       res = None
       try:
-        if path == 'cli_terminal':
+        if path == 'climany':
+          with open(srcpath, 'w') as fh:
+            fh.write(text)
+          run_cli(world, srcpath, ','.join(preds))
+          finals = [s for s in world.statements if s.final]
+          if len(finals) != len(preds):
+            V('cli-output', 'finals', '%d final statements for %d predicates' % (len(finals), len(preds)), i)
+          res = {p_: f_.result for p_, f_ in zip(preds, finals)}
+        elif path == 'cli_terminal':
           with open(srcpath, 'w') as fh:
             fh.write(text)
           run_cli(world, srcpath, preds[0], 'run_in_terminal')
@@ -262,6 +289,8 @@ def run_history(case, scratch):
       if after is None:
         after = dict(before)
       info['transitions'].add((prev_kind, 'faulted-run' if exc is not None else path))
+      if path == 'climany' and exc is None:
+        info['probes']['cli_with_several_predicates'] += 1
       prev_kind = 'faulted-run' if exc is not None else 'run'
       if exc is not None:
         if not world.fired:
@@ -269,12 +298,12 @@ def run_history(case, scratch):
           continue
         # narrow relaxation: only atomicity is demanded of an aborted run
         for g in ([] if after_unobservable else ground):
-          cands = [table_key(before.get(g)), None, table_key(expect_table(by[g], R))]
-          if table_key(after.get(g)) not in cands:
-            V('garbage-after-abort', 'table', 'table %s is neither old, new nor absent after the aborted run: %s' % (g, after.get(g)), i)
-          if table_key(after.get(g)) != table_key(before.get(g)):
+          cands = [table_key(before.get(tab(g))), None, table_key(expect_table(by[g], R))]
+          if table_key(after.get(tab(g))) not in cands:
+            V('garbage-after-abort', 'table', 'table %s is neither old, new nor absent after the aborted run: %s' % (tab(g), after.get(tab(g))), i)
+          if table_key(after.get(tab(g))) != table_key(before.get(tab(g))):
             dirty = True
-            if g not in after:
+            if tab(g) not in after:
               info['probes']['abort_between_drop_and_create'] += 1
         last_run = op2
         last_result = None
@@ -291,8 +320,9 @@ def run_history(case, scratch):
       for s in world.statements:
         for t in s.creates:
           if t.startswith(HOME + '.'):
-            written.add(t.split('.', 1)[1])
-            created_at[t.split('.', 1)[1]] = s.index
+            g_ = pred_of_table.get(t.split('.', 1)[1], t.split('.', 1)[1])
+            written.add(g_)
+            created_at[g_] = s.index
       requested = set(preds)
       for p in preds:
         # (a) rows returned
@@ -310,38 +340,46 @@ def run_history(case, scratch):
         needed |= {g for g in ground if g in dep[p] and g != p}
       for g in sorted(needed):
         want = expect_table(by[g], R)
-        if table_key(after.get(g)) != table_key(want):
+        if table_key(after.get(tab(g))) != table_key(want):
           V('table-contents', 'intermediate', 'table %s holds %s, %s evaluates to %s' % (
-              g, after.get(g), g, want), i)
-        name = '%s.%s' % (HOME, g)
-        reads = [s.index for s in world.statements if name in s.reads]
-        if not reads:
+              tab(g), after.get(tab(g)), g, want), i)
+        name = '%s.%s' % (HOME, tab(g))
+        # every connection of the run is a script of its own (logica.py P,Q runs one per predicate)
+        any_read = False
+        for conn in sorted({s.conn for s in world.statements}):
+          seg = [s for s in world.statements if s.conn == conn]
+          reads = [s.index for s in seg if name in s.reads]
+          creates = [s.index for s in seg if name in s.creates]
+          if not reads:
+            continue
+          any_read = True
+          if not creates:
+            V('not-rewritten', 'stale-read', '%s was read but not rewritten by the script that read it' % name, i)
+          elif min(reads) < min(creates):
+            V('read-before-write', 'stale-read', '%s was read (statement %d) before it was rewritten (statement %d)' % (
+                name, min(reads), min(creates)), i)
+        if not any_read:
           V('not-read', 'recomputed', 'no statement of the run read %s: dependants did not use the table' % name, i)
-        elif g not in created_at:
-          V('not-rewritten', 'stale-read', '%s was read but not rewritten in this run' % name, i)
-        elif min(reads) < created_at[g]:
-          V('read-before-write', 'stale-read', '%s was read (statement %d) before it was rewritten (statement %d)' % (
-              name, min(reads), created_at[g]), i)
         if g in stale_before:
           info['probes']['reader_ran_while_stale_copy_of_input_existed'] += 1
       # (c') whatever grounded table this run wrote holds what the predicate evaluates to
       for g in sorted(written):
-        if g in by and g in ground and table_key(after.get(g)) != table_key(expect_table(by[g], R)):
+        if g in by and g in ground and table_key(after.get(tab(g))) != table_key(expect_table(by[g], R)):
           if g not in needed:
             V('table-contents', 'written', 'table %s written by this run holds %s, %s evaluates to %s' % (
-                g, after.get(g), g, expect_table(by[g], R)), i)
+                tab(g), after.get(tab(g)), g, expect_table(by[g], R)), i)
       for g in ground:
-        if g not in written and table_key(after.get(g)) != table_key(before.get(g)):
-          V('table-contents', 'changed-without-create', 'table %s changed although no CREATE for it ran' % g, i)
+        if g not in written and table_key(after.get(tab(g))) != table_key(before.get(tab(g))):
+          V('table-contents', 'changed-without-create', 'table %s changed although no CREATE for it ran' % tab(g), i)
         if g not in needed and g not in requested and g in written:
           info['probes']['unneeded_grounded_table_written'] += 1
       # (d) asking for P itself prints it without writing it
       for p in preds:
         if p in ground and p not in needed:
           info['probes']['requested_predicate_is_itself_grounded'] += 1
-          if p in written or table_key(after.get(p)) != table_key(before.get(p)):
+          if p in written or table_key(after.get(tab(p))) != table_key(before.get(tab(p))):
             V('requested-written', 'self', 'asking for grounded %s itself wrote its table (before %s, after %s)' % (
-                p, before.get(p), after.get(p)), i)
+                p, before.get(tab(p)), after.get(tab(p))), i)
       # (e) idempotence: an immediate second identical run = same rows, same file
       this = core.canon([preds, version])
       if kind == 'rerun' and last_result is not None and last_result[0] == this:
@@ -379,15 +417,20 @@ def shrink(case):
   for o in minimise.drop_chunks(ops, 1):
     yield dict(case, ops=o)
   for i, op in enumerate(ops):
-    if op[0] in ('run', 'many') and op[-1]:
+    if op[0] in ('run', 'many', 'climany') and op[-1]:
       op2 = list(op)
       op2[-1] = []
       yield dict(case, ops=[op2 if j == i else x for j, x in enumerate(ops)])
     if op[0] == 'many' and len(op[1]) > 1:
       for p in op[1]:
         yield dict(case, ops=[(['run', p, 'concertina', op[2]] if j == i else x) for j, x in enumerate(ops)])
+    if op[0] == 'climany':
+      for p in op[1]:
+        yield dict(case, ops=[(['run', p, 'cli', op[2]] if j == i else x) for j, x in enumerate(ops)])
     if op[0] == 'run' and op[2] != 'concertina':
       yield dict(case, ops=[(['run', op[1], 'concertina', op[3]] if j == i else x) for j, x in enumerate(ops)])
+  if case.get('ground_table'):
+    yield dict(case, ground_table={})
   if len(case['ground']) > 1:
     for g in case['ground']:
       ops2 = [o for o in ops if not (o[0] == 'tamper' and o[1] == g)]
@@ -397,7 +440,7 @@ def shrink(case):
   for o in ops:
     if o[0] == 'run':
       used.add(o[1])
-    elif o[0] == 'many':
+    elif o[0] in ('many', 'climany'):
       used |= set(o[1])
   dep = gen.dependants(prog)
   idb = gen.idb_names(prog)
@@ -475,7 +518,7 @@ def run_batch(seed, batch, tier, scratch):
     r = core.rng(seed, PROPERTY, batch, i)
     case = gen_case(r, hashseed, tier)
     # fault-free twin first: no relaxation can hide an ordinary bug
-    clean = dict(case, ops=[(o[:-1] + [[]] if o[0] in ('run', 'many') else o) for o in case['ops']])
+    clean = dict(case, ops=[(o[:-1] + [[]] if o[0] in ('run', 'many', 'climany') else o) for o in case['ops']])
     if clean != case:
       vs, info = run_history(clean, scratch)
       S.counters['fault_free_twins'] += 1
